@@ -719,3 +719,162 @@ Section Union.
     intro H. apply check_nfa_inv in H. destruct H as [-> _]. apply union_pre_lang.
   Qed.
 End Union.
+
+(* ------------------------------------------------------------------ *)
+Section Concat.
+  Variables A B : nfa.
+  Hypothesis HvA : valid_nfa A = true.
+  Hypothesis HvB : valid_nfa B = true.
+
+  Let xs := concat_xs A B.
+  Let EC := xedge (concat_rowof A B).
+
+  Lemma concat_edge2 q a y : EC (2, q) a y <-> exists q', y = (2, q') /\ n_edge B q a q'.
+  Proof.
+    unfold EC, xedge, concat_rowof, n_edge. simpl. rewrite n_targets_arow. split.
+    - intros [r [Er Hy]]. inversion Er; subst r. rewrite xrow_map_tg in Hy.
+      apply in_map_iff in Hy. destruct Hy as [q' [E Hq']]. exists q'. auto.
+    - intros [q' [-> Hq']]. eexists. split; [reflexivity|]. rewrite xrow_map_tg. apply in_map. exact Hq'.
+  Qed.
+
+  Lemma concat_edge1 q a y :
+    EC (1, q) a y <-> (exists q', y = (1, q') /\ n_edge A q a q') \/
+                      (a = None /\ In q (n_finals A) /\ y = (2, n_init B)).
+  Proof.
+    unfold EC, xedge, concat_rowof, n_edge. simpl. rewrite n_targets_arow.
+    destruct (memb q (n_finals A)) eqn:Ef.
+    - apply memb_In in Ef. split.
+      + intros [r [Er Hy]]. inversion Er; subst r. apply tab_tg in Hy. destruct Hy as [_ Hy].
+        apply in_app_or in Hy. destruct Hy as [Hy|Hy].
+        * left. apply in_map_iff in Hy. destruct Hy as [q' [E Hq']]. exists q'. auto.
+        * right. destruct a as [s|]; [destruct Hy|]. destruct Hy as [Hy|[]]. auto.
+      + intros [[q' [-> Hq']]|[-> [_ ->]]]; (eexists; split; [reflexivity|]); apply tab_tg.
+        * split; [apply in_or_app; left; eapply xtg_key; exact Hq'|].
+          apply in_or_app. left. apply in_map. exact Hq'.
+        * split; [apply in_or_app; right; left; reflexivity|]. apply in_or_app. right. left. reflexivity.
+    - apply memb_false in Ef. split.
+      + intros [r [Er Hy]]. inversion Er; subst r. rewrite xrow_map_tg in Hy.
+        apply in_map_iff in Hy. destruct Hy as [q' [E Hq']]. left. exists q'. auto.
+      + intros [[q' [-> Hq']]|[_ [Hf _]]]; [|contradiction].
+        eexists. split; [reflexivity|]. rewrite xrow_map_tg. apply in_map. exact Hq'.
+  Qed.
+
+  Lemma concat_path1 x w y : gpath EC x w y -> forall p, x = (1, p) ->
+    (exists q, y = (1, q) /\ nfa_path A p w q) \/
+    (exists u v f q, w = u ++ v /\ nfa_path A p u f /\ In f (n_finals A) /\
+                     nfa_path B (n_init B) v q /\ y = (2, q)).
+  Proof.
+    intro H. induction H as [x|x y1 z w He Hp IH|x a y1 z w He Hp IH]; intros p Ex; subst x.
+    - left. exists p. split; [reflexivity|apply np_refl].
+    - apply concat_edge1 in He. destruct He as [[q' [-> He]]|[_ [Hf ->]]].
+      + destruct (IH q' eq_refl) as [[q [-> Hq]]|[u [v [f [q [-> [Hu [Hf [Hv ->]]]]]]]]].
+        * left. exists q. split; [reflexivity|]. eapply np_eps; eassumption.
+        * right. exists u, v, f, q. repeat split; auto. eapply np_eps; eassumption.
+      + apply (embed_bwd B EC (pair 2) concat_edge2) in Hp. destruct Hp as [q [-> Hq]].
+        right. exists [], w, p, q. repeat split; auto. apply np_refl.
+    - apply concat_edge1 in He. destruct He as [[q' [-> He]]|[Ha _]]; [|discriminate].
+      destruct (IH q' eq_refl) as [[q [-> Hq]]|[u [v [f [q [-> [Hu [Hf [Hv ->]]]]]]]]].
+      + left. exists q. split; [reflexivity|]. eapply np_sym; eassumption.
+      + right. exists (a :: u), v, f, q. repeat split; auto. eapply np_sym; eassumption.
+  Qed.
+
+  Lemma concat_path_fwd p u f : nfa_path A p u f -> gpath EC (1, p) u (1, f).
+  Proof.
+    intro H. rewrite nfa_path_gpath in H.
+    apply (sim_fwd (n_edge A) EC (pair 1) (fun _ => True)); [|exact I|exact H].
+    intros x a x' _ He. split; [exact I|]. apply concat_edge1. left. exists x'. auto.
+  Qed.
+
+  Lemma concat_in1 q : In q (n_states A) -> In (1, q) xs.
+  Proof. intro H. unfold xs, concat_xs. apply in_or_app. left. apply in_map. exact H. Qed.
+  Lemma concat_in2 q : In q (n_states B) -> In (2, q) xs.
+  Proof. intro H. unfold xs, concat_xs. apply in_or_app. right. apply in_map. exact H. Qed.
+
+  Lemma concat_xs_inv x : In x xs ->
+    (exists q, x = (1, q) /\ In q (n_states A)) \/ (exists q, x = (2, q) /\ In q (n_states B)).
+  Proof.
+    unfold xs, concat_xs. intro H.
+    apply in_app_or in H. destruct H as [H|H]; apply in_map_iff in H; destruct H as [q [E Hq]]; [left|right]; exists q; auto.
+  Qed.
+
+  Lemma concat_xs_NoDup : NoDup xs.
+  Proof.
+    destruct (ops_valid_parts A HvA) as (HnA & _). destruct (ops_valid_parts B HvB) as (HnB & _).
+    unfold xs, concat_xs.
+    apply NoDup_app_intro; [apply NoDup_map_pair; exact HnA|apply NoDup_map_pair; exact HnB|].
+    intros x H1 H2. apply in_map_iff in H1. apply in_map_iff in H2.
+    destruct H1 as [q1 [<- _]]. destruct H2 as [q2 [E _]]. discriminate.
+  Qed.
+
+  Lemma concat_rows_ok : rows_ok xs (usyms A B) (concat_rowof A B).
+  Proof.
+    destruct (ops_valid_parts B HvB) as (_ & _ & _ & _ & HiB & _).
+    intros x r Hx Er a l Hal.
+    destruct (concat_xs_inv x Hx) as [[q [-> Hq]]|[q [-> Hq]]]; unfold concat_rowof in Er; simpl in Er;
+      inversion Er; subst r; clear Er.
+    - destruct (memb q (n_finals A)).
+      + apply tab_entry in Hal. destruct Hal as [Hk ->]. split.
+        * apply in_app_or in Hk. destruct Hk as [Hk|[<-|[]]]; [|reflexivity].
+          apply in_map_iff in Hk. destruct Hk as [[a' l0] [Ea Hl0]]. simpl in Ea. subst a'.
+          apply usyms_l. eapply arow_entry; eassumption.
+        * intros z Hz. apply in_app_or in Hz. destruct Hz as [Hz|Hz].
+          -- apply in_map_iff in Hz. destruct Hz as [t [<- Ht]]. apply concat_in1.
+             destruct (xtg_In _ _ _ Ht) as [l0 [Hl0 Htl]]. destruct (arow_entry A HvA _ _ _ Hl0) as [_ Hi]. apply Hi. exact Htl.
+          -- destruct a as [s|]; [destruct Hz|]. destruct Hz as [<-|[]]. apply concat_in2. exact HiB.
+      + apply xrow_map_entry in Hal. destruct Hal as [l0 [Hl0 ->]].
+        destruct (arow_entry A HvA _ _ _ Hl0) as [Hs Hi]. split; [apply usyms_l; exact Hs|].
+        intros z Hz. apply in_map_iff in Hz. destruct Hz as [t [<- Ht]]. apply concat_in1. apply Hi. exact Ht.
+    - apply xrow_map_entry in Hal. destruct Hal as [l0 [Hl0 ->]].
+      destruct (arow_entry B HvB _ _ _ Hl0) as [Hs Hi]. split; [apply usyms_r; exact Hs|].
+      intros z Hz. apply in_map_iff in Hz. destruct Hz as [t [<- Ht]]. apply concat_in2. apply Hi. exact Ht.
+  Qed.
+
+  Lemma concat_x0 : In (1, n_init A) xs.
+  Proof. destruct (ops_valid_parts A HvA) as (_ & _ & _ & _ & HiA & _). apply concat_in1. exact HiA. Qed.
+
+  Lemma concat_fin_incl : incl (map (pair 2) (n_finals B)) xs.
+  Proof.
+    destruct (ops_valid_parts B HvB) as (_ & _ & _ & _ & _ & _ & HfB).
+    intros z Hz. apply in_map_iff in Hz. destruct Hz as [q [<- Hq]]. apply concat_in2. apply HfB. exact Hq.
+  Qed.
+
+  Lemma concat_pre_valid : valid_nfa (concat_pre A B) = true.
+  Proof.
+    unfold concat_pre. apply asm_valid.
+    - intros x y. apply pidx_inj.
+    - apply concat_rows_ok.
+    - apply concat_x0.
+    - apply concat_fin_incl.
+    - apply concat_xs_NoDup.
+    - apply usyms_NoDup.
+    - left. unfold concat_rowof. simpl. discriminate.
+  Qed.
+
+  Lemma concat_pre_lang : L_nfa (concat_pre A B) =L l_cat (L_nfa A) (L_nfa B).
+  Proof.
+    intro w. unfold concat_pre. rewrite asm_lang.
+    2: intros x y; apply pidx_inj. 2: apply concat_rows_ok. 2: apply concat_x0. 2: apply concat_fin_incl.
+    fold EC. unfold l_cat, L_nfa. split.
+    - intros [y [Hp Hy]]. apply in_map_iff in Hy. destruct Hy as [qf [<- Hqf]].
+      destruct (concat_path1 _ _ _ Hp (n_init A) eq_refl) as [[q [E _]]|[u [v [f [q [-> [Hu [Hf [Hv E]]]]]]]]]; [discriminate|].
+      inversion E; subst q. exists u, v. split; [reflexivity|]. split; [exists f; auto|exists qf; auto].
+    - intros [u [v [-> [[f [Hu Hf]] [q [Hv Hq]]]]]]. exists (2, q). split; [|apply in_map; exact Hq].
+      eapply gpath_app; [apply concat_path_fwd; exact Hu|].
+      eapply gp_eps; [apply concat_edge1; right; auto|].
+      apply (embed_fwd B EC (pair 2) concat_edge2). exact Hv.
+  Qed.
+
+  Theorem ops_concat_total : rows_keyed A = true -> rows_keyed B = true ->
+    exists R, nfa_concat A B = Ok R /\ valid_nfa R = true.
+  Proof.
+    intros HkA HkB. exists (concat_pre A B). split; [|apply concat_pre_valid].
+    unfold nfa_concat. rewrite (lookups_ok_of_keyed A HvA HkA), (lookups_ok_of_keyed B HvB HkB). simpl.
+    apply check_nfa_ok. apply concat_pre_valid.
+  Qed.
+
+  Theorem ops_concat_lang R : nfa_concat A B = Ok R -> L_nfa R =L l_cat (L_nfa A) (L_nfa B).
+  Proof.
+    unfold nfa_concat. destruct (lookups_ok A && lookups_ok B); [|discriminate].
+    intro H. apply check_nfa_inv in H. destruct H as [-> _]. apply concat_pre_lang.
+  Qed.
+End Concat.
